@@ -9,11 +9,16 @@ import common
 import tlc
 
 SUPPORTED = {"set", "set-safe", "remove", "increment"}
+NOOPS = {"get", "get-safe", "keys", "watch", "unwatch-all", "unwatch", "auth", "use-db"}
 
 
 def model_op(o, node):
     op = o.get("op", {})
     kind = op.get("op")
+    if kind is None and o.get("line", "").split(" ")[0] in ("use-db", "auth"):
+        kind = o["line"].split(" ")[0]
+    if kind in NOOPS:
+        return {"node": node, "op": "noop", "k": "", "v": "", "ver": 0, "n": 0}
     if kind not in SUPPORTED or op.get("d", "d") != "d":
         return None
     if kind == "set":
@@ -27,14 +32,14 @@ def model_op(o, node):
 
 def plan(case):
     """(index of the first explored command, {index: model op}) or None if the model does not cover the case."""
-    if case.get("formation", "direct") != "direct" or case.get("strategy", "none") != "none":
+    if case.get("formation", "direct") != "direct" or case.get("strategy", "none") not in ("none", "newer"):
         return None
     start = case.get("schedule_from") or len(cluster.setup_ops(case["nodes"]))
     ops = {}
     for i, o in enumerate(case["ops"]):
         if i < start:
             continue
-        if o.get("c", "c") != "c":
+        if o.get("c", "c") not in ("c", "c2"):
             return None
         m = model_op(o, o["node"])
         if m is None or " " in m["k"] or m["k"].startswith("$"):
@@ -86,10 +91,11 @@ def normalize(raw_files, out_dir, cases_by_id):
                     cur = None
                     skipped.append(raw["run"])
                     continue
-                key = tuple(case["nodes"])
-                cur = groups.setdefault(key, {"nodes": case["nodes"], "keys": set(), "events": [], "runs": []})
+                key = (tuple(case["nodes"]), case.get("strategy", "none"))
+                cur = groups.setdefault(key, {"nodes": case["nodes"], "strategy": case.get("strategy", "none"),
+                                              "keys": set(), "events": [], "runs": []})
                 cur["runs"].append(raw["run"])
-                cur["keys"].update(m["k"] for m in pl[1].values())
+                cur["keys"].update(m["k"] for m in pl[1].values() if m["k"])
                 cur["events"].append({"ev": "reset", "run": raw["run"]})
                 continue
             if cur is None:
@@ -121,7 +127,7 @@ def normalize(raw_files, out_dir, cases_by_id):
         with open(p, "w") as f:
             for e in g["events"]:
                 f.write(json.dumps(e) + "\n")
-        out.append(({"nodes": g["nodes"], "keys": sorted(g["keys"])}, p, len(g["events"]), g["runs"]))
+        out.append(({"nodes": g["nodes"], "keys": sorted(g["keys"]), "strategy": g["strategy"]}, p, len(g["events"]), g["runs"]))
     return out, skipped
 
 
